@@ -201,6 +201,9 @@ Qed.
 Lemma flat_map_of_map {A B C} (f : B -> list C) (g : A -> B) l : flat_map f (map g l) = flat_map (fun a => f (g a)) l.
 Proof. induction l as [|a l IH]; [reflexivity|]. cbn [map flat_map]. rewrite IH. reflexivity. Qed.
 
+Lemma ne_has_elem {A} (l : list A) : l <> [] -> exists x, In x l.
+Proof. destruct l as [|a l]; [contradiction | intros _; exists a; left; reflexivity]. Qed.
+
 Definition nodeval (n : node) : list Z :=
   let '(b, _, ty) := n in if ty =? 0 then [b] else if ty =? 1 then [0] else [].
 
@@ -369,57 +372,174 @@ Proof.
 Qed.
 
 (* the children queued while processing one level are the non-skipped nodes of the next level *)
-Lemma kids_next k'' : (S (S k'') <= top)%nat ->
+Definition chL (k : nat) (p : Z) : list Z :=
+  if skipL k p || fillL bf S0 k p then [] else map (fun j => p * bf + j) (set_bits (bitsL bf S0 k p)).
+
+Lemma kids_chL k'' : (S (S k'') <= top)%nat ->
   kids bf Ht (Z.of_nat (S (S k''))) (bitsL bf S0 (S k'')) (fillL bf S0 (S k'')) (skipL (S k'')) (Vk bf (S (S k'')) S0) =
-  map (mkq bf Ht (Z.of_nat (S k''))) (filter (fun p => negb (skipL k'' p)) (Vk bf (S k'') S0)).
+  map (mkq bf Ht (Z.of_nat (S k''))) (flat_map (chL (S k'')) (Vk bf (S (S k'')) S0)).
 Proof.
   intros Hk. pose proof (bf_ge2 bf Hbf) as Hb2.
-  set (ch := fun p => if skipL (S k'') p || fillL bf S0 (S k'') p then []
-                      else map (fun j => p * bf + j) (set_bits (bitsL bf S0 (S k'') p))).
-  unfold kids.
-  rewrite (flat_map_ext_in _ (fun p => map (mkq bf Ht (Z.of_nat (S k''))) (ch p))).
-  2:{ intros p _. unfold ch. destruct (skipL (S k'') p || fillL bf S0 (S k'') p); [reflexivity|].
-      rewrite map_map. apply map_ext. intros j. unfold mkq, dep.
-      replace (Ht - (Ht - Z.of_nat (S (S k'')) + 1)) with (Z.of_nat (S k'')) by lia.
-      rewrite (Nat2Z.inj_succ (S k'')), Z.pow_succ_r by lia. f_equal; lia. }
-  rewrite flat_map_map. f_equal.
-  assert (Hchr : forall p x, In x (ch p) -> p * bf <= x < (p + 1) * bf /\
-                   skipL (S k'') p = false /\ fillL bf S0 (S k'') p = false /\
-                   exists j, 0 <= j < bf /\ x = p * bf + j /\ Z.testbit (bitsL bf S0 (S k'') p) j = true).
-  { intros p x Hx. unfold ch in Hx. destruct (skipL (S k'') p) eqn:Es; [contradiction|].
-    destruct (fillL bf S0 (S k'') p) eqn:Ef; [contradiction|]. cbn [orb] in Hx.
+  unfold kids. rewrite <- flat_map_map. apply flat_map_ext_in.
+  intros p _. unfold chL. destruct (skipL (S k'') p || fillL bf S0 (S k'') p); [reflexivity|].
+  rewrite map_map. apply map_ext. intros j. unfold mkq, dep.
+  replace (Ht - (Ht - Z.of_nat (S (S k'')) + 1)) with (Z.of_nat (S k'')) by lia.
+  rewrite (Nat2Z.inj_succ (S k'')), Z.pow_succ_r by lia. f_equal; lia.
+Qed.
+
+Lemma chL_spec k p x : In x (chL k p) ->
+  p * bf <= x < (p + 1) * bf /\ skipL k p = false /\ fillL bf S0 k p = false /\
+  exists j, 0 <= j < bf /\ x = p * bf + j /\ Z.testbit (bitsL bf S0 k p) j = true.
+Proof.
+  pose proof (bf_ge2 bf Hbf) as Hb2. unfold chL.
+  destruct (skipL k p || fillL bf S0 k p) eqn:E.
+  - intros [].
+  - intros Hx. apply orb_false_iff in E. destruct E as (Es & Ef).
     apply in_map_iff in Hx. destruct Hx as (j & <- & Hj).
-    pose proof (bitsL_bound bf Hbf S0 (S k'') p) as Hb.
+    pose proof (bitsL_bound bf Hbf S0 k p) as Hb.
     pose proof (set_bits_in _ bf j ltac:(lia) Hb Hj) as (Hjr & _).
     apply set_bits_in_iff in Hj. destruct Hj as (_ & Ht').
-    split; [lia|]. repeat split; try reflexivity. exists j. repeat split; try lia; assumption. }
+    split; [lia|]. split; [assumption|]. split; [assumption|]. exists j. split; [lia|]. split; [reflexivity | assumption].
+Qed.
+
+Lemma map_add_sorted p l : StronglySorted Z.lt l -> StronglySorted Z.lt (map (fun j => p * bf + j) l).
+Proof.
+  induction 1 as [|a l Hs IHs Ha]; cbn [map]; constructor; [assumption|].
+  rewrite Forall_forall in *. intros y Hy. apply in_map_iff in Hy. destruct Hy as (j & <- & Hj). specialize (Ha j Hj). lia.
+Qed.
+
+Lemma chL_sorted k p : StronglySorted Z.lt (chL k p).
+Proof.
+  unfold chL. destruct (skipL k p || fillL bf S0 k p); [constructor|].
+  destruct (set_bits_sorted bf (bitsL bf S0 k p)) as (Hs & _).
+  apply Sorted_StronglySorted in Hs; [|intros a b c; lia].
+  apply map_add_sorted. assumption.
+Qed.
+
+Lemma chL_intro k p x : 0 <= x < U32 -> p = x / bf -> skipL k p = false -> fillL bf S0 k p = false ->
+  In x (Vk bf k S0) -> In x (chL k p).
+Proof.
+  intros Hxr Ep Hsk Hfl Hx. pose proof (bf_ge2 bf Hbf) as Hb2.
+  unfold chL. replace (skipL k p || fillL bf S0 k p) with false by (rewrite Hsk, Hfl; reflexivity).
+  apply in_map_iff.
+  exists (x mod bf). split; [subst p; lia|].
+  apply set_bits_in_iff. split; [pose proof (Z.mod_pos_bound x bf ltac:(lia)); lia|].
+  apply (bitsL_bit bf Hbf S0); [apply Z.mod_pos_bound; lia|].
+  replace (p * bf + x mod bf) with x by (subst p; lia). assumption.
+Qed.
+
+Lemma flat_chL k'' : (S (S k'') <= top)%nat ->
+  flat_map (chL (S k'')) (Vk bf (S (S k'')) S0) = filter (fun p => negb (skipL k'' p)) (Vk bf (S k'') S0).
+Proof.
+  intros Hk. pose proof (bf_ge2 bf Hbf) as Hb2.
   apply sorted_ext.
-  - apply (sorted_flat_map bf); [lia | apply Vk_sorted; assumption | | intros p x Hx; apply (Hchr p x Hx)].
-    intros p. unfold ch. destruct (skipL (S k'') p || fillL bf S0 (S k'') p); [constructor|].
-    destruct (set_bits_sorted bf (bitsL bf S0 (S k'') p)) as (Hs & _).
-    apply Sorted_StronglySorted in Hs; [|intros a b c; lia].
-    induction Hs as [|a l Hs IHs Ha]; cbn [map]; constructor; [assumption|].
-    rewrite Forall_forall in *. intros y Hy. apply in_map_iff in Hy. destruct Hy as (j & <- & Hj). specialize (Ha j Hj). lia.
+  - apply (sorted_flat_map bf); [lia | apply Vk_sorted; assumption | apply chL_sorted |].
+    intros p x Hx. apply (chL_spec _ _ _ Hx).
   - apply sorted_filter. apply Vk_sorted; assumption.
   - intros x. rewrite in_flat_map, filter_In. split.
-    + intros (p & Hp & Hx). destruct (Hchr p x Hx) as (_ & Hsk & Hfl & j & Hj & -> & Hbit).
+    + intros (p & Hp & Hx). destruct (chL_spec _ _ _ Hx) as (_ & Hsk & Hfl & j & Hj & -> & Hbit).
       apply (bitsL_bit bf Hbf S0 (S k'') p j Hj) in Hbit. split; [assumption|].
       apply negb_true_iff. apply not_true_is_false. intros Hs.
       apply (skipL_iff k'' _ Hbit) in Hs. destruct Hs as (_ & Hf).
       destruct (divmod_pj bf p j Hj) as (E1 & _). rewrite E1 in Hf. congruence.
     + intros (Hx & Hs). apply negb_true_iff in Hs. pose proof (Vk_range bf Hbf S0 H0 _ _ Hx) as Hxr.
-      set (p := x / bf).
-      assert (Hp : In p (Vk bf (S (S k'')) S0)).
-      { cbn [Vk]. apply (par_in bf (Vk bf (S k'') S0) p (Vk_ne bf Hbf S0 H0 (S k''))). exists x. split; [assumption | reflexivity]. }
-      assert (Hfl : fillL bf S0 (S k'') p = false).
+      assert (Hp : In (x / bf) (Vk bf (S (S k'')) S0)).
+      { cbn [Vk]. apply (par_in bf (Vk bf (S k'') S0) (x / bf) (Vk_ne bf Hbf S0 H0 (S k''))). exists x. split; [assumption | reflexivity]. }
+      assert (Hfl : fillL bf S0 (S k'') (x / bf) = false).
       { apply not_true_is_false. intros Hf. assert (Hsk : skipL k'' x = true) by (apply (skipL_iff k'' x Hx); split; [lia | exact Hf]). congruence. }
-      assert (Hsk : skipL (S k'') p = false).
-      { apply not_true_is_false. intros Hsk. pose proof (skip_fill (S k'') p Hp Hsk). congruence. }
-      exists p. split; [assumption|]. unfold ch. rewrite Hsk, Hfl. cbn [orb]. apply in_map_iff.
-      exists (x mod bf). split; [unfold p; lia|].
-      apply set_bits_in_iff. split; [pose proof (Z.mod_pos_bound x bf ltac:(lia)); lia|].
-      apply (bitsL_bit bf Hbf S0); [apply Z.mod_pos_bound; lia|].
-      replace (p * bf + x mod bf) with x by (unfold p; lia). assumption.
+      assert (Hsk : skipL (S k'') (x / bf) = false).
+      { apply not_true_is_false. intros Hsk. pose proof (skip_fill (S k'') (x / bf) Hp Hsk). congruence. }
+      exists (x / bf). split; [assumption|]. apply chL_intro; try assumption; reflexivity.
+Qed.
+
+Lemma kids_next k'' : (S (S k'') <= top)%nat ->
+  kids bf Ht (Z.of_nat (S (S k''))) (bitsL bf S0 (S k'')) (fillL bf S0 (S k'')) (skipL (S k'')) (Vk bf (S (S k'')) S0) =
+  map (mkq bf Ht (Z.of_nat (S k''))) (filter (fun p => negb (skipL k'' p)) (Vk bf (S k'') S0)).
+Proof. intros Hk. rewrite kids_chL, flat_chL by assumption. reflexivity. Qed.
+
+Lemma HHt : 1 <= Ht <= max_height bf.
+Proof. unfold Ht. lia. Qed.
+
+Lemma chain : forall k', (S k' <= top)%nat -> forall i out rest,
+  (forall x, in_ranges x out || coverL k' x = zmem x S0) ->
+  exists out',
+    aloop bf Ht 0 (U32 - 1) (streamk (S k') ++ rest) i
+          (map (mkq bf Ht (Z.of_nat (S k'))) (filter (fun p => negb (skipL k' p)) (Vk bf (S k') S0))) out =
+    ADone (i + length (streamk (S k'))) [] out' /\
+    forall x, in_ranges x out' = zmem x S0.
+Proof.
+  pose proof (bf_ge2 bf Hbf) as Hb2.
+  induction k' as [|k'' IH]; intros Hk i out rest Hinv.
+  - (* leaf level *)
+    rewrite streamk_S. change (streamk 0) with (@nil Z). rewrite app_nil_r.
+    assert (Hall : Forall (fun p => skipL 0 p = false ->
+                     pok bf Ht (Z.of_nat 1) (bitsL bf S0 0) (fillL bf S0 0) p /\
+                     (fillL bf S0 0 p = false -> forall j, In j (set_bits (bitsL bf S0 0 p)) -> p * bf ^ Z.of_nat 1 + j < U32))
+                   (Vk bf 1 S0)).
+    { apply Forall_forall. intros p Hp _. split; [apply pokL; assumption|].
+      intros _ j Hj. pose proof (bitsL_bound bf Hbf S0 0 p) as Hb.
+      pose proof (set_bits_in _ bf j ltac:(lia) Hb Hj) as (Hjr & _).
+      apply set_bits_in_iff in Hj. destruct Hj as (_ & Ht').
+      apply (bitsL_bit bf Hbf S0 0 p j Hjr) in Ht'. cbn [Vk] in Ht'.
+      change (Z.of_nat 1) with 1. rewrite Z.pow_1_r. pose proof (x_range _ Ht'). lia. }
+    destruct (level_leaf bf Ht Hbf HHt (Z.of_nat 1) ltac:(unfold Ht; lia) (bitsL bf S0 0) (fillL bf S0 0) (skipL 0)
+                eq_refl (Vk bf 1 S0) Hall i out rest) as (out' & Hm & E).
+    exists out'. split; [exact E|].
+    intros x. rewrite Hm. specialize (Hinv x).
+    destruct (zmem x S0) eqn:Ez.
+    + destruct (in_ranges x out); [reflexivity|]. cbn [orb] in *. apply leaf_step. assumption.
+    + apply orb_false_iff in Hinv. destruct Hinv as (Ho & _). rewrite Ho. cbn [orb].
+      apply orb_false_iff. split; apply not_true_is_false; intros Hc.
+      * apply fcover_sound in Hc; [|lia]. apply zmem_in in Hc. congruence.
+      * apply lcover_sound in Hc. apply zmem_in in Hc. congruence.
+  - (* inner level *)
+    rewrite streamk_S. rewrite <- app_assoc.
+    assert (Hall : Forall (fun p => skipL (S k'') p = false ->
+                     pok bf Ht (Z.of_nat (S (S k''))) (bitsL bf S0 (S k'')) (fillL bf S0 (S k'')) p)
+                   (Vk bf (S (S k'')) S0)).
+    { apply Forall_forall. intros p Hp _. apply pokL; assumption. }
+    rewrite <- (app_nil_r (map _ (filter _ (Vk bf (S (S k'')) S0)))).
+    destruct (level_inner bf Ht Hbf HHt (Z.of_nat (S (S k''))) ltac:(unfold Ht; lia) (bitsL bf S0 (S k'')) (fillL bf S0 (S k''))
+                (skipL (S k'')) ltac:(lia) (Vk bf (S (S k'')) S0) Hall i [] out (streamk (S k'') ++ rest)) as (out1 & Hm & E).
+    unfold serL. rewrite E. cbn [app]. rewrite kids_next by assumption.
+    assert (Hinv1 : forall x, in_ranges x out1 || coverL k'' x = zmem x S0).
+    { intros x. rewrite Hm. specialize (Hinv x). destruct (zmem x S0) eqn:Ez.
+      - destruct (in_ranges x out); [reflexivity|]. cbn [orb] in *. apply cover_step; assumption.
+      - apply orb_false_iff in Hinv. destruct Hinv as (Ho & _). rewrite Ho. cbn [orb].
+        apply orb_false_iff. split.
+        + apply not_true_is_false. intros Hc. apply fcover_sound in Hc; [|lia]. apply zmem_in in Hc. congruence.
+        + unfold coverL. rewrite Ez. reflexivity. }
+    destruct (IH ltac:(lia) (i + length (flat_map (serp (bitsL bf S0 (S k'')) (fillL bf S0 (S k'')) (skipL (S k''))) (Vk bf (S (S k'')) S0)))%nat
+                 out1 rest Hinv1) as (out' & E2 & Hm2).
+    exists out'. split; [|exact Hm2]. rewrite E2. f_equal. rewrite app_length. lia.
+Qed.
+
+Lemma Vk_top : Vk bf top S0 = [0].
+Proof.
+  pose proof (bf_ge2 bf Hbf) as Hb2.
+  apply sorted_ext; [apply Vk_sorted; assumption | constructor; constructor|].
+  assert (HB : 0 < bf ^ Z.of_nat top) by (apply Z.pow_pos_nonneg; lia).
+  intros q. rewrite (Vk_in bf Hbf S0 H0). split.
+  - intros (x & Hx & <-). pose proof (Hmax x Hx). pose proof (x_range x Hx). left. symmetry. apply Z.div_small. lia.
+  - intros [<-|[]]. destruct (ne_has_elem S0 (Vk_ne bf Hbf S0 H0 0%nat)) as (x & Hx).
+    exists x. split; [assumption|]. pose proof (Hmax x Hx). pose proof (x_range x Hx). apply Z.div_small. lia.
+Qed.
+
+Lemma decode_bfs rest : exists out',
+  aloop bf Ht 0 (U32 - 1) (streamk top ++ rest) 0 [(0, 1)] [] = ADone (length (streamk top)) [] out' /\
+  forall x, in_ranges x out' = zmem x S0.
+Proof.
+  assert (E : top = S (top - 1)) by lia. set (t' := (top - 1)%nat) in *.
+  assert (Hsk : forall p, skipL t' p = false).
+  { intros p. unfold skipL. replace (Nat.eqb (S t') top) with true by (symmetry; apply Nat.eqb_eq; lia). reflexivity. }
+  assert (Hinv : forall x, in_ranges x [] || coverL t' x = zmem x S0).
+  { intros x. unfold coverL. rewrite Hsk. cbn. apply andb_true_r. }
+  destruct (chain t' ltac:(lia) 0%nat [] rest Hinv) as (out' & Ec & Hm).
+  rewrite <- E in Ec. cbn [Nat.add] in Ec.
+  exists out'. split; [|exact Hm].
+  rewrite <- Ec. f_equal.
+  rewrite Vk_top. cbn [filter]. rewrite Hsk. cbn [negb map]. unfold mkq, dep.
+  f_equal. f_equal. unfold Ht. lia.
 Qed.
 
 End Chain.
